@@ -52,6 +52,7 @@ structure St where
 inductive R
   | cont (s : St)
   | done (s : St) (v : Option Str)    -- returned (with the error value for `publishPoisonMessage`)
+  | panicked (s : St) (t : Str)       -- a panic (of the publisher) is propagating: nothing on the way recovers it
   | stuck
 
 def evalC (env : Env) (s : St) : Cond → Bool
@@ -73,6 +74,7 @@ def exec1 (env : Env) (call : St → R) : Stmt → St → R
   | .callPublishPoison, s =>
     match call s with
     | .done s' v => .cont { s' with pubErr := v }
+    | .panicked s' t => .panicked s' t
     | _ => .stuck
   | .wrapPubErr t, s => .cont { s with pubErr := s.pubErr.map (fun e => ascii t ++ ascii ": " ++ e) }
   | .appendErr, s =>
@@ -86,7 +88,10 @@ def exec1 (env : Env) (call : St → R) : Stmt → St → R
     | none => .stuck
   | .retNil, s => .done s none
   | .retPublish, s =>
-    .done { s with pubs := s.pubs ++ [(env.ptopic, s.msg)] } (match env.pub with | .ok => none | .fail t => some t)
+    match env.pub with
+    | .ok => .done { s with pubs := s.pubs ++ [(env.ptopic, s.msg)] } none
+    | .fail t => .done { s with pubs := s.pubs ++ [(env.ptopic, s.msg)] } (some t)
+    | .panic t => .panicked { s with pubs := s.pubs ++ [(env.ptopic, s.msg)] } t
   | .unknown _, _ => .stuck
 def execL (env : Env) (call : St → R) : List Stmt → St → R
   | [], s => .cont s
@@ -100,10 +105,16 @@ end
 def runPublish (env : Env) (body : List Stmt) (s : St) : R :=
   match execL env (fun _ => .stuck) body s with
   | .done s' v => .done s' v
+  | .panicked s' t => .panicked s' t
   | _ => .stuck
 
-/-- the error as the interpreter sees it: the handler's error and, if appended, the text of the second error -/
-abbrev ErrView := Option (HErr × Option Str)
+/-- the error as the interpreter sees it: the handler's error and, if appended, the text of the second error; or the
+    panic that left the call -/
+inductive ErrV
+  | ret (e : HErr) (appended : Option Str)
+  | panicked (t : Str)
+
+abbrev ErrView := Option ErrV
 
 structure OutView where
   pubs : List (Str × Msg)
@@ -113,8 +124,9 @@ structure OutView where
 
 def viewErr : Option RErr → ErrView
   | none => none
-  | some (.same e) => some (e, none)
-  | some (.both e t) => some (e, some (wrapPrefix ++ t))
+  | some (.same e) => some (.ret e none)
+  | some (.both e t) => some (.ret e (some (wrapPrefix ++ t)))
+  | some (.panicked t) => some (.panicked t)
 
 def viewOut (o : Out) : OutView := ⟨o.pubs, o.outs, viewErr o.err, o.msg⟩
 
@@ -122,10 +134,11 @@ def viewOut (o : Out) : OutView := ⟨o.pubs, o.outs, viewErr o.err, o.msg⟩
     falling off the end of the closure is a return. -/
 def run (env : Env) (deferBody publishBody : List Stmt) (msg : Msg) (h : HRes) : Option OutView :=
   let s0 : St := ⟨h.err, none, none, { msg with md := msets msg.md h.sets }, []⟩
-  let fin (s : St) : OutView := ⟨s.pubs, h.outs, s.herr.map (fun e => (e, s.appended)), s.msg⟩
+  let fin (s : St) : OutView := ⟨s.pubs, h.outs, s.herr.map (fun e => ErrV.ret e s.appended), s.msg⟩
   match execL env (runPublish env publishBody) deferBody s0 with
   | .cont s => some (fin s)
   | .done s _ => some (fin s)
+  | .panicked s t => some ⟨s.pubs, [], some (.panicked t), s.msg⟩
   | .stuck => none
 
 end Wm.GoPoison
